@@ -151,6 +151,7 @@ def run(ctx: Any, prog: Program) -> None:
     ctx.rule('C03.K5', 'only self.error(...) (the configured TokenSyntaxError subclass) is raised', floor=12)
     ctx.rule('C03.K6', 'line_num changes only by += 1 when a line-break character was read', floor=4)
     ctx.rule('C03.K7', 'token functions return (Token member, text) pairs', floor=10)
+    ctx.rule('C03.K9', 'the token functions do not call each other recursively (stack depth must not grow with the input)', floor=5)
     ctx.rule('C03.K8', 'Cython chunk cursor fields written only in __init__/_next_char and by `self.char_index -= 1`', floor=3)
 
     tok_methods = tk.methods('Tokenizer')
@@ -188,6 +189,36 @@ def run(ctx: Any, prog: Program) -> None:
         if isinstance(n, ast.Return) and n.value is not None and isinstance(n.value, ast.Subscript) and dotted(n.value.value) not in ('self._cur_chunk',):
             ok = isinstance(n.value.slice, ast.Constant) and n.value.slice.value == 0
             ctx.check('C03.K1', ok, tk, n, 'refill must return the first character of the new chunk', text='_next_char: return chunk[0]')
+
+    # ---- K9: acyclic call graph among the tokenizer's own methods -------------------------------------------
+    graph: Dict[str, Set[str]] = {}
+    all_methods = dict(tk.methods('BaseTokenizer'))
+    all_methods.update(tok_methods)
+    for name, fn in all_methods.items():
+        callees = set()
+        for n in walk_no_nested(fn):
+            if isinstance(n, ast.Call):
+                d = dotted(n.func)
+                if d and d.startswith('self.') and d.count('.') == 1 and d[5:] in all_methods:
+                    callees.add(d[5:])
+                elif d == 'self' :
+                    callees.add('__call__')
+        graph[name] = callees
+    def reaches(src: str, dst: str, seen: Set[str]) -> bool:
+        for c in graph.get(src, ()):
+            if c == dst:
+                return True
+            if c not in seen:
+                seen.add(c)
+                if reaches(c, dst, seen):
+                    return True
+        return False
+    for name in ('_get_token', '_handle_comment', '_handle_string', '_next_char', '__call__'):
+        if name not in all_methods:
+            raise AnalysisError(f'anchor vanished: Tokenizer.{name}')
+        rec = reaches(name, name, set())
+        ctx.check('C03.K9', not rec, tk, all_methods[name], f'{name} can (indirectly) call itself: stack depth grows with the input and ends in RecursionError, not TokenSyntaxError',
+                  func='Tokenizer.' + name, text=f'{name} not recursive')
 
     # ---- K2..K7: transition tabulation ---------------------------------------------------------------
     gt, hc, hs = tk.func('Tokenizer._get_token'), tk.func('Tokenizer._handle_comment'), tk.func('Tokenizer._handle_string')
@@ -384,6 +415,7 @@ def _guarded_by_nonstr(mod: Any, n: ast.AST) -> bool:
 
 
 MUTANTS = [
+    {'id': 'comment_recurses', 'file': 'tokenizer.py', 'find': "        return None  # Swallow the comment.", 'replace': "        return self._get_token()  # Swallow the comment.", 'expect': 'C03.K9'},
     {'id': 'peek_chunk', 'file': 'tokenizer.py', 'find': "                        elif next_next_char == '/':\n                            break", 'replace': "                        elif next_next_char == '/' or self._cur_chunk[self._char_index:self._char_index + 1] == '/':\n                            break", 'expect': 'C03.K1'},
     {'id': 'rewind_two', 'file': 'tokenizer.py', 'find': "                            # \"**/\" parses correctly!\n                            self._char_index -= 1", 'replace': "                            # \"**/\" parses correctly!\n                            self._char_index -= 2", 'expect': 'C03.K1'},
     {'id': 'double_rewind', 'file': 'tokenizer.py', 'find': "            # We want to produce the token for the end character.\n            self._char_index -= 1", 'replace': "            # We want to produce the token for the end character.\n            self._char_index -= 1\n            self._char_index -= 1", 'expect': 'C03.K2'},
